@@ -616,7 +616,19 @@ def joined_str(I, e, fr):
     return "".join(parts)
 
 
+class SFmtRepeat:
+    """a struct format '<prefix><n><code>' whose repeat count n is symbolic"""
+
+    def __init__(self, prefix, count, code):
+        self.prefix, self.count, self.code = prefix, count, code
+
+
 def str_format(I, a, b, node):
+    import re as _re2
+    if isinstance(a, str) and L.is_z3(b):
+        m = _re2.fullmatch(r"([<>!=@]?)%d([BHLIQ])", a)
+        if m:
+            return SFmtRepeat(m.group(1), b, m.group(2))
     if not L.any_z3(b) and not isinstance(b, (SBytes, SObj, SList)):
         try:
             return a % b
